@@ -469,10 +469,10 @@ def filter_verdict(msg_bytes, expr, _cache={}):
     return _cache[key]
 
 
-def assemble(rng, msgs, trailing=True):
+def assemble(rng, msgs, trailing=True, lead=True):
     """sep0 + m1 + sep1 + ... ; returns (stream, starts, separator kinds)."""
     kinds = []
-    k0, sep0 = separator(rng)
+    k0, sep0 = separator(rng) if lead else ('empty', b'')
     kinds.append(k0)
     parts, starts, pos = [sep0], [], len(sep0)
     for i, m in enumerate(msgs):
@@ -553,6 +553,14 @@ def make_damaged_cases(ctx, pool, n_streams, kinds=None, modes=None):
         dmg = [rng.random() < 0.4 for _ in ds]
         if not any(dmg):
             dmg[rng.randrange(n)] = True
+        lead = True
+        if k % 3 == 0 and n >= 3:
+            # the stream begins with its longest message, undamaged, directly at offset 0; a shorter damaged one follows,
+            # then a good one (what "skip the damaged message" must then use is the damaged message's OWN length)
+            ds.sort(key=lambda d: -len(d['bytes']))
+            dmg = [False, True] + [rng.random() < 0.2 for _ in ds[2:]]
+            dmg[-1] = False
+            lead = False
         msgs, dk = [], []
         for d, bad in zip(ds, dmg):
             if bad:
@@ -561,8 +569,10 @@ def make_damaged_cases(ctx, pool, n_streams, kinds=None, modes=None):
                 dk.append(kind)
             else:
                 msgs.append(d['bytes'])
-        stream, starts, skinds = assemble(rng, msgs, trailing=rng.random() < 0.8)
+        stream, starts, skinds = assemble(rng, msgs, trailing=rng.random() < 0.8, lead=lead)
         tags = ['damaged', 'n_messages:%d' % n, 'n_damaged:%d' % sum(dmg)] + ['damage:' + x for x in sorted(set(dk))]
+        if not lead:
+            tags.append('long-first-at-offset-0')
         good = [m for m, bad in zip(msgs, dmg) if not bad]
         first_bad = dmg.index(True)
         for io_, coe in (modes or [(False, True), (False, False), (True, True), (True, False)]):
